@@ -8,7 +8,7 @@ import traceback
 
 import z3
 
-from . import core, shims
+from . import core, shims, fpsolve
 from .core import (Ctx, Abort, Inconclusive, SymInt, SymFloat, SymBool, SymBytes, SymByteArray, _SB,
                    mkbool, boolterm)
 from .strings import SymStr
@@ -150,6 +150,7 @@ class Sx:
         bits = max(bits, 1)
         assert bits < core.W, "input wider than carrier"
         t = z3.BitVec(name, bits)
+        self.ctx.vars[name] = t
         self.inputs[name] = ("int", t, signed)
         e = z3.SignExt(core.W - bits, t) if signed else z3.ZeroExt(core.W - bits, t)
         full_lo = -(1 << (bits - 1)) if signed else 0
@@ -165,6 +166,7 @@ class Sx:
         if not self.sym:
             return bool(self.values[name])
         t = z3.Bool(name)
+        self.ctx.vars[name] = t
         self.inputs[name] = ("bool", t)
         return SymBool(t)
 
@@ -174,6 +176,8 @@ class Sx:
             assert len(v) == n
             return bytearray(v) if mutable else v
         ts = [z3.BitVec(f"{name}[{i}]", 8) for i in range(n)]
+        for t in ts:
+            self.ctx.vars[str(t)] = t
         self.inputs[name] = ("bytes", ts)
         if mutable:
             return SymByteArray(ts)
@@ -183,6 +187,7 @@ class Sx:
         if not self.sym:
             return float(self.values[name])
         t = z3.FP(name, core.F64)
+        self.ctx.vars[name] = t
         self.inputs[name] = ("float", t)
         if not allow_nan:
             self.ctx.add(z3.Not(z3.fpIsNaN(t)))
@@ -234,11 +239,11 @@ class Sx:
             return
         neg = z3.Not(t)
         no_ovf = [z3.Not(o) for o in c.ovf]
-        r = c._check(neg, *no_ovf)
-        if r == z3.unsat:
+        st, inputs = self._decide([neg] + no_ovf)
+        if st == "unsat":
             self.discharged += 1
         else:
-            self._violation(label, neg, no_ovf)
+            self._violation(label, neg, no_ovf, inputs)
         # continue under cond
         if z3.is_false(t) or not c.feasible(t):
             raise Abort("dead after failed requirement")
@@ -250,23 +255,70 @@ class Sx:
         """obligation that this point is unreachable"""
         self.require(False, label)
 
-    def _violation(self, label, neg, no_ovf):
+    # ---- deciding: z3 for bit-vector obligations, cvc5 (binary) when FP terms are involved
+    def _decide(self, extra):
         c = self.ctx
+        if c.has_fp and fpsolve.CVC5 is not None:
+            st, vals = fpsolve.check(list(c.pc) + list(extra), self._varnames(),
+                                     tlimit_s=getattr(c, "fp_tlimit_s", 60))
+            c.queries += 1
+            if st == "unsat":
+                return "unsat", None
+            if st == "sat":
+                return "sat", self._inputs_from_values(vals)
+            fpsolve.STATS["z3_fallbacks"] += 1
+        r = c._check(*extra)
+        if r == z3.unsat:
+            return "unsat", None
+        return "sat", self.model_inputs(c.sat_model())
+
+    def _varnames(self):
+        out = []
+        for name, spec in self.inputs.items():
+            if spec[0] == "bytes":
+                out += [str(t) for t in spec[1]]
+            else:
+                out.append(name)
+        return out
+
+    def _inputs_from_values(self, vals):
+        import struct
+        out = {}
+        for name, spec in self.inputs.items():
+            if spec[0] == "int":
+                v = vals.get(name)
+                n = spec[1].size()
+                x = v[1] if v else 0
+                if spec[2] and x >= (1 << (n - 1)):
+                    x -= 1 << n
+                out[name] = x
+            elif spec[0] == "bool":
+                out[name] = bool(vals.get(name, False))
+            elif spec[0] == "bytes":
+                out[name] = bytes((vals.get(str(t)) or ("bv", 0, 8))[1] for t in spec[1])
+            elif spec[0] == "float":
+                v = vals.get(name)
+                bits = v[1] if v else 0
+                out[name] = struct.unpack(">d", bits.to_bytes(8, "big"))[0]
+        return out
+
+    def _violation(self, label, neg, no_ovf, inputs):
         regions = []
         for f in self.findings:
             if f["label"] != label or not _cfg_match(f.get("config", {}), self.cfg):
                 continue
             regions.append((f, self._region_term(f)))
+        if not regions:
+            self.violations.append({"label": label, "inputs": inputs})
+            return
         outside = [z3.Not(rt) for _, rt in regions]
-        r = c._check(neg, *no_ovf, *outside)
-        if r == z3.sat:
-            m = c.solver.model()
-            self.violations.append({"label": label, "inputs": self.model_inputs(m)})
+        st, inp = self._decide([neg] + no_ovf + outside)
+        if st == "sat":
+            self.violations.append({"label": label, "inputs": inp})
         for f, rt in regions:
-            if c._check(neg, *no_ovf, rt) == z3.sat:
-                m = c.solver.model()
-                self.known_hits.append({"finding": f["id"], "label": label,
-                                        "inputs": self.model_inputs(m)})
+            st, inp = self._decide([neg] + no_ovf + [rt])
+            if st == "sat":
+                self.known_hits.append({"finding": f["id"], "label": label, "inputs": inp})
 
     def _region_term(self, f):
         expr = f.get("region", "True")
